@@ -1,6 +1,7 @@
 package sym
 
 import (
+	"time"
 	"fmt"
 	"go/constant"
 	"go/token"
@@ -483,6 +484,9 @@ func (e *Engine) runTask(rc *runCtx, t task) {
 		fr.ip++
 		st.steps++
 		e.stats.Instrs++
+		if st.steps&0xFFFFF == 0 && !e.jobStart.IsZero() && time.Since(e.jobStart) > e.JobWall {
+			panic(unsupported(fmt.Sprintf("job wall-clock limit of %s exceeded in %s", e.JobWall, fr.fn)))
+		}
 		if st.steps > e.MaxSteps {
 			panic(unsupported(fmt.Sprintf("step budget exceeded (%d) in %s", e.MaxSteps, fr.fn)))
 		}
@@ -513,6 +517,16 @@ func (e *Engine) runTask(rc *runCtx, t task) {
 			}
 			// symbolic branch: fork
 			e.stats.Forks++
+			if fr.visits[fr.block.Index] > 1 {
+				// the same symbolic branch decided again on this path: a loop whose continuation
+				// depends on symbolic data. Bounded unwinding: the registered jobs need at most ~200
+				// such iterations; a change that makes such a loop spin without progress would
+				// otherwise keep the check running for ever.
+				st.symBack++
+				if st.symBack > e.SymUnwind {
+					panic(unsupported(fmt.Sprintf("unwinding bound: a symbolic loop condition was decided more than %d times on one path (block %d of %s): no progress towards the loop exit?", e.SymUnwind, fr.block.Index, fr.fn)))
+				}
+			}
 			pc0 := st.pc[:len(st.pc):len(st.pc)]
 			seq0 := e.restrictSeq
 			st2 := st.fork()
@@ -642,9 +656,11 @@ func (e *Engine) spread(rc *runCtx, fr *frame, v ssa.Value, conts []cont, cur **
 func (e *Engine) enter(st *State, fr *frame, b *ssa.BasicBlock) bool {
 	// back edge (the target dominates the source): the path must still be feasible, otherwise a loop
 	// whose exit condition is symbolic would be unrolled forever along an impossible path
-	if len(st.pc) > 0 && fr.visits[b.Index] > 0 && b.Dominates(fr.block) && !e.feasible(st) {
-		e.stats.Pruned++
-		return false
+	if len(st.pc) > 0 && fr.visits[b.Index] > 0 && b.Dominates(fr.block) {
+		if !e.feasible(st) {
+			e.stats.Pruned++
+			return false
+		}
 	}
 	fr.prev = fr.block
 	fr.block = b
